@@ -5,6 +5,8 @@
 package backtest
 
 import (
+	"sync"
+
 	"github.com/cinar/indicator/v2/asset"
 	"github.com/cinar/indicator/v2/helper"
 	"github.com/cinar/indicator/v2/strategy"
@@ -30,6 +32,9 @@ type DataStrategyResult struct {
 
 // DataReport is the bactest data report enablign programmatic access to the backtest results.
 type DataReport struct {
+	// mu guards the results, the report is written by several workers.
+	mu sync.Mutex
+
 	// Results are the backtest results for the assets.
 	Results map[string][]*DataStrategyResult
 }
@@ -48,7 +53,10 @@ func (*DataReport) Begin(_ []string, _ []strategy.Strategy) error {
 
 // AssetBegin is called when backtesting for the given asset begins.
 func (d *DataReport) AssetBegin(name string, strategies []strategy.Strategy) error {
+	d.mu.Lock()
 	d.Results[name] = make([]*DataStrategyResult, 0, len(strategies))
+	d.mu.Unlock()
+
 	return nil
 }
 
@@ -70,7 +78,9 @@ func (d *DataReport) Write(assetName string, currentStrategy strategy.Strategy, 
 		Transactions: transactions,
 	}
 
+	d.mu.Lock()
 	d.Results[assetName] = append(d.Results[assetName], result)
+	d.mu.Unlock()
 
 	return nil
 }
